@@ -96,6 +96,16 @@ protected :
 
 private :
     // -----------------------------------------------------------------------
+    //  Private helper methods
+    // -----------------------------------------------------------------------
+    bool findOneTo
+    (
+        const   XMLCh       toXlat
+        ,       XMLByte&    toFill
+    )   const;
+
+
+    // -----------------------------------------------------------------------
     //  Unimplemented constructors and operators
     // -----------------------------------------------------------------------
     XML256TableTranscoder();
